@@ -293,6 +293,7 @@ func (sdb *DbSqlite) verifyNodeHashes(fix bool) error {
 	var verify func(node data.NodeEdge) error
 
 	verify = func(node data.NodeEdge) error {
+		verifYield("verify-level")
 		children, err := sdb.getNodes(nil, node.ID, "all", "", true)
 		if err != nil {
 			return err
@@ -437,12 +438,15 @@ func (sdb *DbSqlite) nodePoints(id string, points data.Points) error {
 
 	points.Collapse()
 
+	verifYield("write-lock")
 	sdb.writeLock.Lock()
+	defer verifYield("write-unlocked")
 	defer sdb.writeLock.Unlock()
 	tx, err := sdb.db.Begin()
 	if err != nil {
 		return err
 	}
+	verifYield("node-begin")
 
 	rollback := func() {
 		rbErr := tx.Rollback()
@@ -560,16 +564,19 @@ NextPin:
 
 	stmt.Close()
 
+	verifYield("node-before-hash")
 	err = sdb.updateHash(tx, id, hashUpdate)
 	if err != nil {
 		rollback()
 		return fmt.Errorf("Error updating upstream hash: %v", err)
 	}
 
+	verifYield("node-before-commit")
 	err = tx.Commit()
 	if err != nil {
 		return err
 	}
+	verifYield("node-after-commit")
 
 	return nil
 }
@@ -593,7 +600,9 @@ func (sdb *DbSqlite) edgePoints(nodeID, parentID string, points data.Points) err
 		}
 	}
 
+	verifYield("write-lock")
 	sdb.writeLock.Lock()
+	defer verifYield("write-unlocked")
 	defer sdb.writeLock.Unlock()
 
 	var err error
@@ -605,6 +614,7 @@ func (sdb *DbSqlite) edgePoints(nodeID, parentID string, points data.Points) err
 	if err != nil {
 		return err
 	}
+	verifYield("edge-begin")
 
 	rollback := func() {
 		rbErr := tx.Rollback()
@@ -855,16 +865,19 @@ NextPin:
 		}
 	}
 
+	verifYield("edge-before-hash")
 	err = sdb.updateHashEdge(tx, edge, parentID, hashUpdate)
 	if err != nil {
 		rollback()
 		return fmt.Errorf("Error updating upstream hash: %v", err)
 	}
 
+	verifYield("edge-before-commit")
 	err = tx.Commit()
 	if err != nil {
 		return err
 	}
+	verifYield("edge-after-commit")
 
 	return nil
 }
@@ -1116,6 +1129,8 @@ func (sdb *DbSqlite) getNodes(tx *sql.Tx, parent, id, typ string, includeDel boo
 	if len(ret) < 1 {
 		return ret, nil
 	}
+
+	verifYield("get-between-queries")
 
 	// Load node points for each NodeEdge
 	nodeIDs := make([]any, len(ret))
